@@ -67,9 +67,11 @@ def check_group_columns_eval(chk, rs) -> bool:
         for tag, fmt, cols in TABLE_CLASSES:
             atoms = _table(fmt, cols)
             made: List[Any] = []
-            me = Obj("self", format=fmt, atoms=atoms)
+            from sa.fragment import Instance
+
             env: Dict[str, Any] = {"Residue": lambda df: (made.append(df), Obj("residue", atoms=df))[1]}
             env.update(module_callables(repo, T2, outer=env))
+            me = Instance(repo, T2, "Structure", env, format=fmt, atoms=atoms)  # helpers called on `self` are the class's own methods
             call = func_callable(repo, T2, rs.node, env, max_steps=20000)
             n += 1
             try:
